@@ -201,6 +201,13 @@ SetMpFrom(h, g) == LET o == H[h].o p == M[H[g].o].mp IN
   /\ p # 0
   /\ Step("setmpfrom", h, g, 0, ~FrzM(h, o), SetFld(o, "mp", Len(P) + 1), L, Append(P, P[p]), H)
 
+\* h.f = None: the field is unset (at most once per history).  A list, map or sub-message that a view or
+\* another message still holds is detached from h, not emptied.
+Clr(h, f) == LET o == H[h].o IN
+  /\ Fld(o, f) # 0
+  /\ \A j \in 1..Len(hist) : hist[j][1] \notin {"clr.i", "clr.sub", "clr.r", "clr.rm", "clr.mp"}
+  /\ Step("clr." \o f, h, 0, 0, ~FrzM(h, o), SetFld(o, f, 0), L, P, H)
+
 (***************************************************************************)
 (* Mutations through a path from a message handle.  Reading an unset field *)
 (* gives an immutable default, so the mutation fails.                      *)
@@ -283,6 +290,7 @@ Next ==
        \/ Copy(h) \/ SetI(h) \/ SetSubNew(h) \/ SetR(h) \/ SetRmNew(h) \/ SetMp(h)
        \/ SubSetI(h) \/ RApp(h) \/ RSet(h) \/ Rm0SetI(h) \/ MpSet(h)
        \/ \E f \in {"sub", "r", "rm", "mp", "rm0"} : View(h, f)
+       \/ \E f \in {"i", "sub", "r", "rm", "mp"} : Clr(h, f)
        \/ \E g \in MsgHandles :
             \/ SetRFrom(h, g) \/ SetMpFrom(h, g)
             \/ (g # h /\ (SetSub(h, g) \/ SetSubFrom(h, g) \/ SetRm(h, g)))
